@@ -229,6 +229,18 @@ fn run_op(op: &str, spec: &str, input: &str) -> String {
             "compressed" => svgbob::to_svg_string_compressed(input),
             "settings" => svgbob::to_svg_with_settings(input, &s),
             "override" => svgbob::to_svg_with_override_size(input, &s, w, h),
+            // one buffer rendered twice through the public API: first with the default settings, then with `s`;
+            // the second document must be what a fresh conversion with `s` gives
+            "rerender" => {
+                let cb = CellBuffer::from(input);
+                let (first, _, _): (svgbob::Node<()>, f32, f32) = cb.get_node_with_size(&svgbob::Settings::default());
+                let mut sink = String::new();
+                first.render(&mut sink).expect("must render");
+                let (node, _, _): (svgbob::Node<()>, f32, f32) = cb.get_node_with_size(&s);
+                let mut buffer = String::new();
+                node.render(&mut buffer).expect("must render");
+                buffer
+            }
             _ => panic!("unknown entry {}", entry),
         };
         return format!("S {}", esc(&out));
